@@ -102,8 +102,10 @@ def main():
         })
     man = {
         'version': 1,
-        'setup_cmd': ('/venv/bin/python -c "import hypothesis" 2>/dev/null || /venv/bin/pip install --no-index '
-                      '--find-links /opt/veriftools/wheels --target /verif/.deps hypothesis'),
+        'setup_cmd': ('mkdir -p /verif/.deps; /venv/bin/python -c "import hypothesis" 2>/dev/null || /venv/bin/pip install --no-index '
+                      '--find-links /opt/veriftools/wheels --target /verif/.deps hypothesis; '
+                      'PYTHONPATH=/verif/.deps /venv/bin/python -c "import atheris" 2>/dev/null || /venv/bin/pip install --no-index '
+                      '--find-links /opt/veriftools/wheels --target /verif/.deps atheris || true'),
         'hooks': {
             'guard': 'SIMPROCESD_VERIF',
             'enable': 'no source hooks are needed: checks import /repo/simprocesd directly (PYTHONPATH=/repo) and observe through '
